@@ -140,3 +140,19 @@ package influx
 //@   store Row.IndexOptions
 //@     set rewritten = true
 //@   ensures [slot_rewritten_on_every_successful_decode] result2 == nil ==> rewritten
+
+// Un-escaping of a quoted string field: in front of a quote, a run of k backslashes stands for k/2 literal backslashes
+// followed by the quote itself (\" is a quote, \\\" is a backslash and a quote ...): exactly k/2 of them are kept.
+//@ prop C06
+//@ func parseFieldStrValue
+//@   ghost w int = -1
+//@   call .WriteString
+//@     set w = len(arg0)
+//@     frame nothing
+//@   call .WriteByte
+//@     requires [escaped_quote_keeps_half_of_the_backslashes] arg0 == 34 && w == origN + slashes / 2
+//@     frame nothing
+//@   loop 1
+//@     invariant -1 <= n && n < len(s)
+//@   loop 2
+//@     invariant 0 <= origN && origN <= n && n < len(s) && slashes == n - origN + 1
